@@ -467,6 +467,33 @@ NS_SPELL = ["2020-01-02 03:04:05.123456789", "2020-01-02T03:04:05.1234567", "199
             " 2020-01-02 03:04:05.000000001 ", "2031-07-08 09:10:11.12345678"]
 
 
+def _fine(c):
+    import re
+    if isinstance(c, str):
+        return re.search(r"\.\d{7,9}\s*([Zz]|[+-]\d{2}:\d{2})?\s*$", c) is not None
+    return bool(getattr(c, "nanosecond", 0))
+
+
+def keep_ns_in_range(grid, info):
+    """a datetime column with a finer-than-microsecond value is held as datetime64[ns], which cannot hold dates outside
+    1677-09-21 .. 2262-04-11: pandas then keeps an object column and the reader rejects the table (ColumnUnitException,
+    an input error) — not a well-formed table.  Such columns are kept inside the ns range."""
+    for j, k in enumerate(info["kinds"]):
+        if k != "datetime":
+            continue
+        cells = []
+        for r in range(info["n_row"]):
+            ri, ci = (2 + j, 2 + r) if info["transposed"] else (4 + r, j)
+            if ri < len(grid) and ci < len(grid[ri]):
+                cells.append((ri, ci))
+        if any(_fine(grid[ri][ci]) for ri, ci in cells):
+            for ri, ci in cells:
+                c = grid[ri][ci]
+                if isinstance(c, str) and c.strip()[:4] in ("1677", "2262"):
+                    grid[ri][ci] = "2020-01-02"
+    return grid
+
+
 def inject_ns(rng, grid, info, native=False, p=0.35):
     """with probability p per datetime column, one value cell gets a finer-than-microsecond timestamp (text, or a
     pd.Timestamp for native grids): pandas then holds the whole column as datetime64[ns]"""
@@ -475,6 +502,8 @@ def inject_ns(rng, grid, info, native=False, p=0.35):
         return grid
     for j, k in enumerate(info["kinds"]):
         if k != "datetime" or rng.random() >= p:
+            continue
+        if (2 + j >= len(grid)) if info["transposed"] else (len(grid) < 4 + info["n_row"]):
             continue
         i = rng.randrange(info["n_row"])
         cell = pd.Timestamp(rng.choice(NS_SPELL).strip()) if native and rng.random() < 0.5 else rng.choice(NS_SPELL)
@@ -488,7 +517,7 @@ def inject_ns(rng, grid, info, native=False, p=0.35):
             grid[2 + j][2 + i] = cell
         else:
             grid[4 + i][j] = cell
-    return grid
+    return keep_ns_in_range(grid, info)
 
 
 def zoo():
